@@ -7,10 +7,10 @@ import (
 	"sort"
 	"strconv"
 	"strings"
-	"text/template"
 
 	"github.com/robfig/soy/ast"
 	"github.com/robfig/soy/data"
+	"github.com/robfig/soy/internal/jsesc"
 	"github.com/robfig/soy/soymsg"
 )
 
@@ -167,7 +167,7 @@ func (s *state) walk(node ast.Node) {
 		s.js("null")
 	case *ast.StringNode:
 		s.js("'")
-		template.JSEscape(s.wr, []byte(node.Value))
+		jsesc.Escape(s.wr, []byte(node.Value))
 		s.js("'")
 	case *ast.IntNode:
 		s.js(node.String())
@@ -203,7 +203,7 @@ func (s *state) walk(node ast.Node) {
 				s.js(",")
 			}
 			first = false
-			s.js("\"", template.JSEscapeString(k), "\"", ":")
+			s.js("\"", jsesc.EscapeString(k), "\"", ":")
 			s.walk(node.Items[k])
 		}
 		s.js("}")
@@ -746,7 +746,7 @@ func (s *state) nodeFromValue(pos ast.Pos, val data.Value) ast.Node {
 func (s *state) writeRawText(text []byte) {
 	s.indent()
 	s.js(s.bufferName, " += '")
-	template.JSEscape(s.wr, text)
+	jsesc.Escape(s.wr, text)
 	s.js("';\n")
 }
 
